@@ -1207,7 +1207,17 @@ func (e *Engine) concat(st *State, a, b Value, t types.Type) Value {
 		k, srt, e.le(e.izero(), k), e.lt(k, la), arr, k, a.T, e.add(sx("s_off", a.T), k), arr, k))
 	e.assume("true", fmt.Sprintf("(forall ((%s %s)) (! (=> (and %s %s) (= (select %s %s) (select (s_arr %s) %s))) :pattern ((select %s %s))))",
 		k, srt, e.le(la, k), e.lt(k, e.add(la, lb)), arr, k, b.T, e.add(sx("s_off", b.T), e.sub(k, la)), arr, k))
-	return Value{sx("mk-str", arr, e.izero(), e.add(la, lb)), t}
+	res := sx("mk-str", arr, e.izero(), e.add(la, lb))
+	if e.c != nil && e.c.MapLoop && !e.bv {
+		// string identities (map keys): the identity of a concatenation is a function of the identities of its parts,
+		// injective in the suffix for a fixed prefix
+		if !e.declared["sidcat"] {
+			e.declareFun("sidcat", []string{"Int", "Int"}, "Int")
+			e.axioms = append(e.axioms, "(forall ((x Int) (y Int) (z Int)) (! (=> (= (sidcat x y) (sidcat x z)) (= y z)) :pattern ((sidcat x y) (sidcat x z))))")
+		}
+		e.assume("true", eq(sx("sid", res), sx("sidcat", sx("sid", a.T), sx("sid", b.T))))
+	}
+	return Value{res, t}
 }
 
 func (e *Engine) mkStrLit(s string) string {
